@@ -194,3 +194,57 @@ Proof.
     destruct (MP ks np en s f u v lo lu iv lv uf3 I Fu Fv Ku' Kv' Nuv Iu Lu Iv Lv ltac:(lia) HU3 NoE NoC) as (s' & -> & I').
     exists s', true, (relabel f u v). auto.
 Qed.
+
+(* ------------------------------------------------------------------ groundwork for merge_phase_refines *)
+
+Lemma alookup_aremove_neq {A} k k' (m : list (N * A)) : k <> k' -> alookup k (aremove k' m) = alookup k m.
+Proof.
+  intro Ne. induction m as [|[k0 v0] r IH]; cbn; [reflexivity|].
+  destruct (N.eqb k' k0) eqn:E.
+  - apply N.eqb_eq in E. subst. rewrite (N_eqb_false k k0 Ne). reflexivity.
+  - cbn. destruct (N.eqb k k0); [reflexivity|exact IH].
+Qed.
+
+Lemma alookup_not_in {A} k (m : list (N * A)) : ~ In k (map fst m) -> alookup k m = None.
+Proof.
+  induction m as [|[k0 v0] r IH]; cbn; intro H; [reflexivity|].
+  destruct (N.eqb k k0) eqn:E; [apply N.eqb_eq in E; subst; tauto|]. apply IH. tauto.
+Qed.
+
+Lemma alookup_aremove_eq {A} k (m : list (N * A)) : NoDup (map fst m) -> alookup k (aremove k m) = None.
+Proof.
+  induction m as [|[k0 v0] r IH]; cbn; intro ND; [reflexivity|]. inversion ND; subst.
+  destruct (N.eqb k k0) eqn:E.
+  - apply N.eqb_eq in E. subst. apply alookup_not_in. assumption.
+  - cbn. rewrite E. apply IH. assumption.
+Qed.
+
+(* retain_mut over the concatenated predecessor lists: representatives, self edges dropped *)
+Lemma retain_find_spec f u : forall ps uf, UFInv uf f ->
+  fst (retain_find u ps uf) = filter (fun x => negb (N.eqb x u)) (map f ps) /\
+  UFInv (snd (retain_find u ps uf)) f.
+Proof.
+  induction ps as [|p ps IH]; intros uf HU; cbn; [auto|].
+  pose proof (uf_find_correct uf f p HU) as (HU1 & E1).
+  destruct (uf_find uf p) as [uf1 rp]. cbn in HU1, E1. subst rp.
+  destruct (IH uf1 HU1) as (E2 & HU2). destruct (retain_find u ps uf1) as [r' uf2]. cbn in *.
+  subst r'. split; [|exact HU2]. destruct (N.eqb (f p) u); reflexivity.
+Qed.
+
+(* the representatives of the window's nodes *)
+Lemma find_all_spec f : forall ks uf, UFInv uf f ->
+  fst (find_all ks uf) = map f ks /\ UFInv (snd (find_all ks uf)) f.
+Proof.
+  induction ks as [|k ks IH]; intros uf HU; cbn; [auto|].
+  pose proof (uf_find_correct uf f k HU) as (HU1 & E1).
+  destruct (uf_find uf k) as [uf1 rk]. cbn in HU1, E1. subst rk.
+  destruct (IH uf1 HU1) as (E2 & HU2). destruct (find_all ks uf1) as [r' uf2]. cbn in *.
+  subst r'. auto.
+Qed.
+
+(* step 2's union keeps u as the representative (the debug assertion cannot fire) *)
+Lemma merge_union_root f u v uf : UFInv uf f -> f u = u ->
+  snd (uf_union uf u v) = u /\ UFInv (fst (uf_union uf u v)) (relabel f u v).
+Proof.
+  intros HU Fu. destruct (uf_union_correct uf f u v HU) as (H1 & H2). split; [congruence|exact H1].
+Qed.
